@@ -135,7 +135,7 @@ void run_case(const uint8_t* data, size_t size, vf::Case& c) {
     return;
   }
   // ---- generated pattern
-  bool icase = b.chance(50);
+  bool icase = b.chance(80);
   Comp comps[8];  // protocol username password hostname port pathname search hash
   bool present[8];
   static const unsigned prob[8] = {150, 20, 20, 170, 90, 200, 110, 80};
@@ -232,7 +232,17 @@ void run_case(const uint8_t* data, size_t size, vf::Case& c) {
   bool any_match = false, any_parsed = false;
   for (unsigned k = 0; k < nin; k++) {
     std::string v[8];
-    for (int i = 0; i < 8; i++) v[i] = vf::pat::perturb(b, comps[i].instance);
+    if (b.chance(140)) {
+      // the most telling input for a matcher: every component is the instance, except ONE,
+      // which is a near miss (so the answer hinges on that component alone)
+      for (int i = 0; i < 8; i++) v[i] = comps[i].instance;
+      int j = (int)b.below(8);
+      if (b.chance(160)) { static const int late[] = {5, 6, 7}; j = late[b.below(3)]; }   // pathname / search / hash most of the time
+      for (int tries = 0; tries < 4 && v[j] == comps[j].instance; tries++) v[j] = vf::pat::perturb(b, comps[j].instance);
+      VF_TAG("input_near_miss_in_one_component");
+    } else {
+      for (int i = 0; i < 8; i++) v[i] = vf::pat::perturb(b, comps[i].instance);
+    }
     if (v[0].empty()) v[0] = "https";
     // delimiters inside the value: "##x" / "??q" (a dictionary input loses exactly one of them,
     // a URL string keeps the second one as part of the fragment / query)
